@@ -742,7 +742,9 @@ C15.level_note = (
     "them, used only by the _defect witnesses); they are tied to the code only by the differential run. PARTIAL: a TCP segment carrying the MPTCP option ends the model's "
     "chain as `foreign` (nothing proved; oracle only); the DHCP option *classes* are not modelled (unpackOptions wraps each in try/except and falls back to the raw "
     "bytes; the model keeps code + bytes); pack()/str() of the phase-2 classes are not modelled (their known failures are findings K2-K4, K11, K12, K15, K16; "
-    "oracle only). DNS is modelled as the code stands: any announced question/record makes parse give up (ord() on an int inside the try/except, D46), so name "
+    "oracle only). Proposed repairs exist for K2 (also removes K4), K3, K5-K14, K16 (fixes/C15-K<n>_*.diff, each applies alone to HEAD); the parse-stage ones "
+    "are model variants detected from the source (evidence field repairs_detected_in_source), the pack-stage ones (K2, K3, K11, K12, K16) are judged by the oracle only. "
+    "K1 (nesting) and K15 (DHCP option packing, D45 family) have no patch. DNS is modelled as the code stands: any announced question/record makes parse give up (ord() on an int inside the try/except, D46), so name "
     "decompression and its pointer loops are unreachable and not modelled. K14 is over-approximated (IPAddr of a 0..3-byte slice is libc's text parse): where "
     "Python happens to accept the text the model declines and nothing is compared. struct.pack('!I', len) in the ICMPv6 checksum is assumed not to overflow "
     "(frames < 4 GiB). Python's recursion limit is modelled abstractly as a nesting budget (CPython spends 2-3 frames per nested header). The print model contains "
